@@ -21,6 +21,7 @@ CONSTANTS Threshold,        \* commit when more than this many statements are bu
           AgeTestReversed,  \* BOOLEAN: the pinned tree's (last_commit - now) > 10 s
           MaxBuffered,      \* property layer: "a few dozen (about 50)" -> 64
           AgeMust,          \* property layer: "more than about ten seconds" -> 15
+          MigrationCommits, \* BOOLEAN: is the data migrated from a legacy database committed before the counter starts at 0
           BulkSizes,        \* sizes of bulk inserts explored
           TickSizes,        \* virtual-clock increments explored
           MaxIssued, MaxTime
@@ -79,6 +80,16 @@ FailedOp ==
      \/ (UNCHANGED counter /\ NoCommit)
   /\ last' = [kind |-> "failed", prevFlush |-> lastFlush, at |-> now, op |-> "fail", n |-> 0]
 
+\* first creation of the store beside a legacy database: one bucket row (committed by create_bucket) and n
+\* migrated events issued through conditional_commit; afterwards the bookkeeping starts from zero
+Migrate(n) ==
+  /\ issued = 0 /\ last.kind = "init"
+  /\ issued' = 1 + n
+  /\ durable' = IF MigrationCommits \/ n > Threshold THEN 1 + n ELSE 1
+  /\ counter' = 0 /\ lastCommit' = now /\ lastFlush' = now
+  /\ last' = [kind |-> "event", prevFlush |-> lastFlush, at |-> now, op |-> "migrate", n |-> n]
+  /\ UNCHANGED now
+
 Tick(d) == /\ now' = now + d
            /\ last' = [kind |-> "tick", prevFlush |-> lastFlush, at |-> now, op |-> "tick", n |-> d]
            /\ UNCHANGED <<issued, durable, counter, lastCommit, lastFlush>>
@@ -97,6 +108,7 @@ Next == \/ \E n \in BulkSizes : EventWrite(n, "insert")
         \/ \E n \in {1, 2} : BucketOp(n)
         \/ Read
         \/ FailedOp
+        \/ \E n \in BulkSizes : Migrate(n)
         \/ \E d \in TickSizes : Tick(d)
         \/ Crash
 Spec == Init /\ [][Next]_vars
